@@ -142,6 +142,14 @@ def step (st : St) (line : String) : St × String :=
       | some vars => ({ st with eng := { sc := { nActions := n, vars := vars } }, text := [] }, "ok")
       | none => (st, "bad-line")
     | _, _ => (st, "bad-line")
+  | "relimit" :: _ :: n :: k :: rest =>
+    -- the same scenario POSTed again with another limit: for the engine model a scenario POST like any other
+    match n.toNat?, k.toNat? with
+    | some n, some k =>
+      match parseScenarioVars k rest with
+      | some vars => doReq { st with text := [] } (.scenario { nActions := n, vars := vars })
+      | none => (st, "bad-line")
+    | _, _ => (st, "bad-line")
   | "rescenario" :: n :: k :: rest =>
     match n.toNat?, k.toNat? with
     | some n, some k =>
